@@ -830,9 +830,10 @@ class LLMGenerationActionsV2dotx(LLMGenerationActions):
         if len(docstrings) > 0:
             docstring = docstrings[0]
             if "one-off" not in docstring:
-                self._last_docstring = docstring
+                # The last instructions belong to the conversation, not to the (shared) actions
+                state.context["_last_docstring"] = docstring
         else:
-            docstring = self._last_docstring
+            docstring = state.context.get("_last_docstring", "")
 
         render_context = {}
         render_context.update(state.context)
